@@ -82,6 +82,7 @@ class C20System(BuilderSystem):
         if st.ctx:
             ops.append(["exit"])
             ops.append(["exit!"])
+            ops.append(["exit!k"])
         return ops
 
     def step(self, st, op):
@@ -111,7 +112,7 @@ class C20System(BuilderSystem):
                 st.registered.append(hn)
             st.last_exc, st.last_rejected, st.last_lines = None, False, []
             return problems
-        if name in ("exit", "exit!"):
+        if name in ("exit", "exit!", "exit!k"):
             exc, chunks = st.call(op)
             hn = st.ctx_hooks.pop()
             if hn in st.registered:
